@@ -8,6 +8,14 @@
 //!  * `pl_to_tfm(text)` returns, `File::deserialize(output)` is `Ok`, the output passes the header model
 //!    with `4*lf == len`, and `tfm_to_pl(output)` returns.
 //!  * chain: a property list produced by `tfm_to_pl` is fed back through the PL oracle.
+//!  * nesting against the 8 MiB stack of the `pltotf` binary: directed texts of depth up to 10^6 are converted in a
+//!    child process (sub-check `small_stack_nesting`); a stack overflow aborts the process and is a violation.
+//!  * every returned warning and error is rendered to its text the way the two binaries do
+//!    (`pltotf_message(text)`, `tftopl_message()`), under `panics::catch`: "returns ... plus warnings".
+//!  * size bound (work, not time): each table of the `pl_to_tfm` output is at most as long as the text can
+//!    call for (counted independently from the text); the listed finding KF-C10-1 excuses an output of more
+//!    than 32767 words only when the text really holds that many lig/kern steps and kerns and the output is
+//!    otherwise a consistent sequence of tables.
 
 use crate::engine::*;
 use proptest::prelude::*;
@@ -25,6 +33,10 @@ const SIG_D20: &str = "panic:crates/tfm/src/deserialize.rs:attempt to add with o
 
 /// pl_to_tfm output longer than 32767 words (only observable once the D20 overflow in valid_lf is repaired).
 const FLAG_TOO_LONG: &str = "flag:pl_output_longer_than_32767_words";
+
+/// The TFM reader rejects the 256 extensible recipes that pl_to_tfm writes for 256 VARCHAR characters
+/// (TFtoPL 21 rejects `ne>256` only). Excuses exactly: output with ne = 256, reader error TooManyExtensibleCharacters(256).
+const FLAG_NE_256: &str = "flag:reader_rejects_256_extensible_recipes";
 
 fn survey() -> bool {
     static S: OnceLock<bool> = OnceLock::new();
@@ -234,11 +246,12 @@ fn err_matches(e: &tfm::DeserializationError, x: &Expect, m: &HeaderModel, n: us
         (E::InternalFileLengthIsZero, Expect::Zero) => true,
         (E::InternalFileLengthIsTooBig(a, l), Expect::TooBig(b)) => a == b && *l == n,
         (E::InternalFileLengthIsTooSmall(a, l), Expect::SmallZone(b)) => a == b && *l == n,
-        // lf in 4..=5 with 24 real bytes: the crate reads the sub-file sizes; any section-21 error is tolerated.
+        // lf in 1..=5: TFtoPL does not treat this case (it reads sub-file sizes from memory the file did not fill and
+        // reports whatever section-21 error they call for), so any section-21 error is a documented outcome.
         (
             E::SubFileSizeIsNegative(_) | E::HeaderLengthIsTooSmall(_) | E::InvalidCharacterRange(_, _) | E::IncompleteSubFiles(_) | E::TooManyExtensibleCharacters(_) | E::InconsistentSubFileSizes(_),
             Expect::SmallZone(_),
-        ) => n >= 24,
+        ) => true,
         (E::SubFileSizeIsNegative(s), Expect::NegSize) => sizes_equal(s, &m.words),
         (E::HeaderLengthIsTooSmall(a), Expect::LhSmall(b)) => a == b,
         (E::InvalidCharacterRange(a, b), Expect::BadRange(c, d)) => a == c && b == d,
@@ -398,9 +411,18 @@ fn panic_verdict(ctx: &Ctx, info: &panics::PanicInfo, stage: &str, model: Option
     Verdict::Fail(format!("{stage}: panic at {}: {} [sig {}]", info.site(), info.message, sig))
 }
 
-fn display_format(sel: u64) -> tfm::pl::CharDisplayFormat {
+/// The display format the `tftopl` binary would pick (`tfm-bin/src/shared.rs`): for `--charcode-format default`
+/// it looks at the coding scheme of the converted file.
+fn display_format(sel: u64, pl: &tfm::pl::File) -> tfm::pl::CharDisplayFormat {
     match sel % 3 {
-        0 => tfm::pl::CharDisplayFormat::Default,
+        0 => {
+            let scheme = pl.header.character_coding_scheme.as_deref().unwrap_or("").to_uppercase();
+            if scheme.starts_with("TEX MATH SY") || scheme.starts_with("TEX MATH EX") {
+                tfm::pl::CharDisplayFormat::Octal
+            } else {
+                tfm::pl::CharDisplayFormat::Default
+            }
+        }
         1 => tfm::pl::CharDisplayFormat::Ascii,
         _ => tfm::pl::CharDisplayFormat::Octal,
     }
@@ -413,14 +435,30 @@ struct TfmOutcome {
 }
 
 /// `tfm_to_pl` on arbitrary bytes: returns, and the outcome is the one the header words call for.
-fn check_tfm(ctx: &Ctx, bytes: &[u8], fmt_sel: u64, sink: &mut Sink) -> Result<TfmOutcome, Verdict> {
+fn check_tfm(ctx: &Ctx, bytes: &[u8], fmt_sel: u64, render: bool, sink: &mut Sink) -> Result<TfmOutcome, Verdict> {
     let model = header_model(bytes);
-    let fmt = display_format(fmt_sel);
-    let out = match panics::catch(|| tfm::algorithms::tfm_to_pl(bytes, 3, &|_| fmt)) {
+    let out = match panics::catch(|| tfm::algorithms::tfm_to_pl(bytes, 3, &|pl| display_format(fmt_sel, pl))) {
         Err(info) => return Err(panic_verdict(ctx, &info, "tfm_to_pl", Some(&model))),
         Ok(Err(e)) => return Err(Verdict::Fail(format!("tfm_to_pl returned the undocumented error {e:?}"))),
         Ok(Ok(o)) => o,
     };
+    if render {
+        // What `tftopl` does with the result: every message and the error are turned into text.
+        let r = panics::catch(|| {
+            let mut n = 0usize;
+            for m in &out.error_messages {
+                n += m.tftopl_message().len();
+            }
+            if let Err(e) = &out.pl_data {
+                n += e.tftopl_message().len() + e.to_string().len();
+            }
+            n
+        });
+        if let Err(info) = r {
+            return Err(panic_verdict(ctx, &info, "tftopl_message (rendering a returned warning/error the way tftopl does)", Some(&model)));
+        }
+        sink.add("tfm:messages_rendered");
+    }
     let mut junk_warnings = 0usize;
     let mut other = 0usize;
     for m in &out.error_messages {
@@ -471,6 +509,108 @@ fn check_tfm(ctx: &Ctx, bytes: &[u8], fmt_sel: u64, sink: &mut Sink) -> Result<T
     }
 }
 
+/// Upper bounds on the tables of the TFM file a property list can call for, counted from the text alone
+/// (PLtoTF: one lig/kern word per LIG/KRN element plus at most 257 entry words; one kern word per distinct KRN
+/// amount; one width per CHARWD element plus the zero width; indices of the TFM format bound the rest).
+/// Property names are matched the way PLtoTF reads them (ASCII letters, either case); occurrences inside comments
+/// or data only make the bound larger.
+#[derive(Debug, Clone, Copy)]
+struct SizeBound {
+    lh: i32,
+    nw: i32,
+    nh: i32,
+    nd: i32,
+    ni: i32,
+    nl: i32,
+    nk: i32,
+    ne: i32,
+    np: i32,
+}
+
+/// PLtoTF's `max_lig_steps` in today's distributions and the crate's documented `MAX_LIG_KERN_INSTRUCTIONS`.
+const MAX_STEPS: i32 = 32510;
+
+/// Occurrences of each of `NEEDLES` in the text, ASCII letters compared without case (one pass).
+const NEEDLES: [&[u8]; 9] = [b"KRN", b"LIG", b"HEADER", b"CHARWD", b"CHARHT", b"CHARDP", b"CHARIC", b"VARCHAR", b"BOUNDARYCHAR"];
+
+fn count_needles(hay: &[u8]) -> [i32; 9] {
+    let mut n = [0i32; 9];
+    for i in 0..hay.len() {
+        // upper-case form of an ASCII letter; no other byte maps into b'A'..=b'Z'
+        let u = hay[i] & 0xDF;
+        if !matches!(u, b'K' | b'L' | b'H' | b'C' | b'V' | b'B') {
+            continue;
+        }
+        for (k, needle) in NEEDLES.iter().enumerate() {
+            if needle[0] == u && hay.len() - i >= needle.len() && hay[i + 1..i + needle.len()].iter().zip(&needle[1..]).all(|(a, b)| a.to_ascii_uppercase() == *b) {
+                n[k] += 1;
+            }
+        }
+    }
+    n
+}
+
+fn size_bound(text: &str) -> SizeBound {
+    let [krn, lig, header, charwd, charht, chardp, charic, varchar, boundarychar] = count_needles(text.as_bytes());
+    SizeBound {
+        lh: if header == 0 { 18 } else { 256 },
+        // the width table holds the zero width twice when a character has no CHARWD (PLtoTF 75: zero widths are sorted in)
+        nw: (2 + charwd).min(256),
+        nh: (1 + charht).min(16),
+        nd: (1 + chardp).min(16),
+        ni: (1 + charic).min(64),
+        nl: if krn + lig == 0 && boundarychar == 0 { 0 } else { (krn + lig).min(MAX_STEPS) + 257 },
+        nk: krn.min(MAX_STEPS),
+        ne: varchar.min(256),
+        np: 254,
+    }
+}
+
+impl SizeBound {
+    fn total(&self) -> i32 {
+        6 + self.lh + 256 + self.nw + self.nh + self.nd + self.ni + self.nl + self.nk + self.ne + self.np
+    }
+    /// First table of the output (header words `w`) that is longer than the text can call for.
+    fn exceeded(&self, w: &[i32]) -> Option<String> {
+        let rows = [("lh", w[1], self.lh), ("nw", w[4], self.nw), ("nh", w[5], self.nh), ("nd", w[6], self.nd), ("ni", w[7], self.ni), ("nl", w[8], self.nl), ("nk", w[9], self.nk), ("ne", w[10], self.ne), ("np", w[11], self.np)];
+        rows.iter().find(|(_, got, ub)| got > ub).map(|(n, got, ub)| format!("{n}={got} but the text can call for at most {ub}"))
+    }
+}
+
+/// Which warnings to render. A message with a context line walks the text up to its offset, so rendering every
+/// warning of a long text is quadratic work. All are rendered while the summed offsets stay below `work` (4*10^5 quick, 3*10^6 thorough); otherwise
+/// the first of every kind, the first and last four, and evenly spaced others as far as the work budget reaches.
+/// Deterministic (a function of the returned warnings).
+fn render_selection(warnings: &[tfm::pl::ParseWarning], kinds: &[&'static str], text_len: usize, work: usize) -> Vec<usize> {
+    let n = warnings.len();
+    let cost = |i: usize| warnings[i].knuth_pltotf_offset.map(|o| o.min(text_len)).unwrap_or(0) + 64;
+    if (0..n).map(cost).sum::<usize>() <= work {
+        return (0..n).collect();
+    }
+    let mut picked = vec![false; n];
+    let mut seen: Vec<&'static str> = vec![];
+    let mut spent = 0usize;
+    for (i, k) in kinds.iter().enumerate() {
+        if !seen.contains(k) || i < 4 || i + 4 >= n {
+            if !seen.contains(k) {
+                seen.push(k);
+            }
+            picked[i] = true;
+            spent += cost(i);
+        }
+    }
+    let stride = n.div_ceil(64).max(1);
+    let mut i = stride / 2;
+    while i < n && spent < work {
+        if !picked[i] {
+            picked[i] = true;
+            spent += cost(i);
+        }
+        i += stride;
+    }
+    (0..n).filter(|i| picked[*i]).collect()
+}
+
 /// `pl_to_tfm` on arbitrary text: returns, and the output is a TFM the reader accepts.
 /// Returns the number of parse warnings.
 fn check_pl(ctx: &Ctx, text: &str, deep: bool, sink: &mut Sink) -> Result<usize, Verdict> {
@@ -478,11 +618,50 @@ fn check_pl(ctx: &Ctx, text: &str, deep: bool, sink: &mut Sink) -> Result<usize,
         Err(info) => return Err(panic_verdict(ctx, &info, "pl_to_tfm", None)),
         Ok(r) => r,
     };
-    for w in &warnings {
-        sink.add(pw_class(&w.kind));
+    let kinds: Vec<&'static str> = warnings.iter().map(|w| pw_class(&w.kind)).collect();
+    for k in &kinds {
+        sink.add(k);
     }
+    // What `pltotf` does with the result: every warning is turned into text (with its context line).
+    let sel = render_selection(&warnings, &kinds, text.len(), ctx.tier.pick(400_000, 3_000_000));
+    sink.add(if sel.len() == warnings.len() { "pl:all_warnings_rendered" } else { "pl:warnings_rendered_sampled" });
+    // A listed rendering panic does not end the case: the output is still checked, and the case counts as a hit of
+    // the finding only if nothing else is wrong with it.
+    let mut known_rendering_panic: Option<Verdict> = None;
+    for i in sel {
+        let w = &warnings[i];
+        if let Err(info) = panics::catch(|| w.pltotf_message(text).len()) {
+            match panic_verdict(ctx, &info, "pltotf_message", None) {
+                Verdict::Fail(m) => return Err(Verdict::Fail(format!("{m}; rendering the returned warning {:?} (span {:?}, offset {:?}) the way pltotf does", w.kind, w.span, w.knuth_pltotf_offset))),
+                v => {
+                    known_rendering_panic.get_or_insert(v);
+                }
+            }
+        }
+    }
+    let bound = size_bound(text);
+    let raw_words: Vec<i32> = (0..12).map(|k| bytes.get(2 * k..2 * k + 2).map(|p| i16::from_be_bytes([p[0], p[1]]) as i32).unwrap_or(-1)).collect();
     if bytes.len() / 4 > i16::MAX as usize {
         // No 16-bit lf can describe this output (PLtoTF refuses such property lists: "too many different kerns").
+        // The listed finding covers exactly this: the text calls for more words than lf can express, and the output is
+        // otherwise a consistent sequence of tables, none longer than the text calls for.
+        if bound.total() <= i16::MAX as i32 {
+            return Err(Verdict::Fail(format!("pl_to_tfm wrote {} words for a text that cannot call for more than {} ({bound:?}): size bound", bytes.len() / 4, bound.total())));
+        }
+        let w = &raw_words;
+        let sum = 6 + w[1] + (w[3] - w[2] + 1) + w[4..].iter().sum::<i32>();
+        if bytes.len() % 4 != 0 || w[1..].iter().any(|x| *x < 0) || sum as usize != bytes.len() / 4 {
+            return Err(Verdict::Fail(format!("pl_to_tfm wrote {} bytes whose table sizes {:?} do not add up to the length (beyond the 16-bit lf of the listed finding)", bytes.len(), &w[1..])));
+        }
+        if let Some(m) = bound.exceeded(w) {
+            return Err(Verdict::Fail(format!("pl_to_tfm output has {m}: size bound")));
+        }
+        if w[8] == i16::MAX as i32 {
+            sink.add("pl:too_long_output_with_nl=32767");
+        }
+        if w[8] >= i16::MAX as i32 - 2 {
+            sink.add("pl:too_long_output_with_nl>=32765");
+        }
         if ctx.known(FLAG_TOO_LONG) || survey() {
             return Err(Verdict::Known(FLAG_TOO_LONG.into()));
         }
@@ -496,10 +675,19 @@ fn check_pl(ctx: &Ctx, text: &str, deep: bool, sink: &mut Sink) -> Result<usize,
     if model.junk || bytes.len() % 4 != 0 {
         return Err(Verdict::Fail(format!("pl_to_tfm output has {} bytes but lf={}", bytes.len(), model.words[0])));
     }
+    // Work bound: no table is longer than the text can call for.
+    if let Some(m) = bound.exceeded(&raw_words) {
+        return Err(Verdict::Fail(format!("pl_to_tfm output has {m}: size bound")));
+    }
     // The composition statement: the crate's own reader accepts it.
     match panics::catch(|| tfm::File::deserialize(&bytes)) {
         Err(info) => return Err(panic_verdict(ctx, &info, "File::deserialize(pl_to_tfm(..))", Some(&model))),
-        Ok((Err(e), _)) => return Err(Verdict::Fail(format!("pl_to_tfm output rejected by the TFM reader: {e:?}"))),
+        Ok((Err(e), _)) => {
+            if model.words[10] == 256 && matches!(e, tfm::DeserializationError::TooManyExtensibleCharacters(256)) && ctx.known(FLAG_NE_256) {
+                return Err(Verdict::Known(FLAG_NE_256.into()));
+            }
+            return Err(Verdict::Fail(format!("pl_to_tfm output rejected by the TFM reader: {e:?}")));
+        }
         Ok((Ok(_), ws)) => {
             if !ws.is_empty() {
                 sink.add("pl:output_reread_with_warning");
@@ -507,12 +695,31 @@ fn check_pl(ctx: &Ctx, text: &str, deep: bool, sink: &mut Sink) -> Result<usize,
         }
     }
     sink.add("pl:output_reread_ok");
-    if model.words[8] > 255 {
+    let w = &model.words;
+    if w[8] > 255 {
         sink.add("pl:output_nl>255");
+    }
+    if w[8] >= 32000 {
+        sink.add("pl:output_nl>=32000");
+    }
+    if w[10] == 256 {
+        sink.add("pl:output_ne=256");
+    }
+    if w[10] >= 250 {
+        sink.add("pl:output_ne>=250");
+    }
+    if w[4] == 256 {
+        sink.add("pl:output_nw=256_(width_compression_at_its_limit)");
+    }
+    if w[2] == 0 && w[3] == 255 {
+        sink.add("pl:output_bc=0_ec=255");
+    }
+    if w[0] >= 32000 {
+        sink.add("pl:output_lf>=32000");
     }
     if deep {
         // The output is itself a byte string: tftopl on it must return as well.
-        match panics::catch(|| tfm::algorithms::tfm_to_pl(&bytes, 3, &|_| Default::default())) {
+        match panics::catch(|| tfm::algorithms::tfm_to_pl(&bytes, 3, &|pl| display_format(0, pl))) {
             Err(info) => return Err(panic_verdict(ctx, &info, "tfm_to_pl(pl_to_tfm(..))", Some(&model))),
             Ok(Err(e)) => return Err(Verdict::Fail(format!("tfm_to_pl(pl_to_tfm(..)) returned {e:?}"))),
             Ok(Ok(o)) => {
@@ -521,9 +728,15 @@ fn check_pl(ctx: &Ctx, text: &str, deep: bool, sink: &mut Sink) -> Result<usize,
                 }
                 if !o.error_messages.is_empty() {
                     sink.add("pl:output_has_tftopl_warnings");
+                    if let Err(info) = panics::catch(|| o.error_messages.iter().map(|m| m.tftopl_message().len()).sum::<usize>()) {
+                        return Err(panic_verdict(ctx, &info, "tftopl_message on tfm_to_pl(pl_to_tfm(..))", Some(&model)));
+                    }
                 }
             }
         }
+    }
+    if let Some(v) = known_rendering_panic {
+        return Err(v);
     }
     Ok(warnings.len())
 }
@@ -583,7 +796,7 @@ fn fixpoint_check(ctx: &Ctx, bytes: &[u8], sink: &mut Sink) -> Result<(), Verdic
 /// Bytes oracle plus the chain through the produced property list.
 fn tfm_case(ctx: &Ctx, bytes: &[u8], fmt_sel: u64, chain: bool, case: &mut Case) -> Verdict {
     let mut sink = Sink { case: Some(case) };
-    let out = match check_tfm(ctx, bytes, fmt_sel, &mut sink) {
+    let out = match check_tfm(ctx, bytes, fmt_sel, true, &mut sink) {
         Ok(o) => o,
         Err(v) => return v,
     };
@@ -694,7 +907,16 @@ pub enum Raw {
     PlManyKerns { n: u32 },
     /// A lig table of `filler` KRN steps followed by `labels` blocks `(LABEL D c)(KRN D c R 1.0)`, c = 0,1,..;
     /// optionally a BOUNDARYCHAR.
-    PlLateLabels { filler: u32, labels: u32, boundary: bool },
+    PlLateLabels {
+        filler: u32,
+        labels: u32,
+        boundary: bool,
+        /// a trailing `(LABEL BOUNDARYCHAR)(KRN D 0 R 2.0)`
+        #[serde(default)]
+        boundary_label: bool,
+    },
+    /// `n` characters D 0, D 1, .. each with a VARCHAR (one extensible recipe per character; 256 is the format's maximum).
+    PlManyVarchars { n: u32, pieces: bool },
 }
 
 fn raw_oracle(ctx: &Ctx, r: &Raw, case: &mut Case) -> Verdict {
@@ -727,7 +949,7 @@ fn raw_oracle(ctx: &Ctx, r: &Raw, case: &mut Case) -> Verdict {
             case.note = Some(format!("lig table with {n} KRN steps, all amounts different"));
             pl_case(ctx, &s, case)
         }
-        Raw::PlLateLabels { filler, labels, boundary } => {
+        Raw::PlLateLabels { filler, labels, boundary, boundary_label } => {
             let mut s = String::new();
             if *boundary {
                 s.push_str("(BOUNDARYCHAR D 0)\n");
@@ -739,11 +961,28 @@ fn raw_oracle(ctx: &Ctx, r: &Raw, case: &mut Case) -> Verdict {
             for c in 0..*labels {
                 s.push_str(&format!("(LABEL D {})(KRN D {} R 1.0)\n", c % 256, c % 256));
             }
+            if *boundary_label {
+                s.push_str("(LABEL BOUNDARYCHAR)(KRN D 0 R 2.0)\n");
+            }
             s.push_str(")\n");
             for c in 0..(*labels).min(256) {
                 s.push_str(&format!("(CHARACTER D {c} (CHARWD R 1.0))\n"));
             }
-            case.note = Some(format!("{filler} filler KRN steps, then {labels} labelled steps, boundary={boundary}"));
+            case.note = Some(format!("{filler} filler KRN steps, then {labels} labelled steps, boundary={boundary}, boundary label={boundary_label}"));
+            case.class_if(*filler + *labels + *boundary_label as u32 == MAX_STEPS as u32 && *labels >= 256 && *boundary_label, "directed:nl=32767_called_for");
+            pl_case(ctx, &s, case)
+        }
+        Raw::PlManyVarchars { n, pieces } => {
+            let mut s = String::new();
+            for c in 0..(*n).min(256) {
+                if *pieces {
+                    s.push_str(&format!("(CHARACTER D {c} (CHARWD R 1.0) (VARCHAR (TOP D {}) (MID D {c}) (BOT D {}) (REP D {c})))\n", (c + 1) % 256, (c + 255) % 256));
+                } else {
+                    s.push_str(&format!("(CHARACTER D {c} (VARCHAR (REP D {c})))\n"));
+                }
+            }
+            case.note = Some(format!("{n} characters, each with a VARCHAR (pieces={pieces})"));
+            case.class_if(*n >= 256, "directed:256_varchars");
             pl_case(ctx, &s, case)
         }
     }
@@ -826,8 +1065,28 @@ fn directed_cases() -> Vec<Raw> {
     v.push(Raw::PlManyKerns { n: 16500 });
     v.push(Raw::PlManyKerns { n: 32510 });
     for (filler, labels, boundary) in [(0u32, 256u32, false), (256, 255, false), (256, 256, false), (256, 256, true), (255, 256, true), (300, 200, true), (1, 256, true)] {
-        v.push(Raw::PlLateLabels { filler, labels, boundary });
+        v.push(Raw::PlLateLabels { filler, labels, boundary, boundary_label: false });
     }
+    // The upper end of the lig/kern table: 32510 steps in the text + 256 entry-point redirects + the boundary entry
+    // = nl 32767 exactly (the largest value a size word can hold), and its neighbours on both sides of the PLtoTF cap.
+    for filler in [32252u32, 32253, 32254, 32255] {
+        v.push(Raw::PlLateLabels { filler, labels: 256, boundary: true, boundary_label: true });
+    }
+    v.push(Raw::PlLateLabels { filler: 32253, labels: 256, boundary: false, boundary_label: true });
+    v.push(Raw::PlLateLabels { filler: 32254, labels: 256, boundary: true, boundary_label: false });
+    v.push(Raw::PlLateLabels { filler: 32254, labels: 255, boundary: true, boundary_label: true });
+    v.push(Raw::PlLateLabels { filler: 32400, labels: 256, boundary: true, boundary_label: true });
+    // One extensible recipe per character: 255, 256 (the format's maximum: TFtoPL 21 rejects ne > 256 only).
+    for (n, pieces) in [(255u32, false), (256, false), (256, true)] {
+        v.push(Raw::PlManyVarchars { n, pieces });
+    }
+    // Warnings whose text is asked for right at / after the end of the text, and the kinds PLtoTF words specially.
+    for t in ["(FACE\n", "(FACE", "(CHARACTER C A (CHARWD R 5000", "(CHARACTER C A (CHARWD R 5000\n\n", "(LIGTABLE (LABEL\n", "x", "x\n", ")\n", "(\n", "(COMMENT (\n", "(CHECKSUM\r\n", "(HEADER D 3\r\r\n", "(FAMILY é\n(", "\r", "(DESIGNSIZE R 1.é\r\n\r\n"] {
+        v.push(Raw::Pl(t.into()));
+    }
+    v.push(Raw::Pl("(SEVENBITSAFEFLAG TRUE)(CHARACTER C A (NEXTLARGER D 200))".into()));
+    v.push(Raw::Pl("(SEVENBITSAFEFLAG TRUE)(LIGTABLE (LABEL C A)(LIG C B D 200))(CHARACTER C A)(CHARACTER C B)".into()));
+    v.push(Raw::Pl("(SEVENBITSAFEFLAG TRUE)(CHARACTER C A (VARCHAR (REP D 200)))".into()));
     // deep nesting
     v.push(Raw::PlRep { pre: "".into(), rep: "(CHARACTER C A ".into(), n: 5000, post: "".into() });
     v.push(Raw::PlRep { pre: "(CHARACTER C A ".into(), rep: "(COMMENT ".into(), n: 5000, post: "".into() });
@@ -969,10 +1228,17 @@ fn header_sweep(ctx: &Ctx) {
     let hi = t.base_end[n_bases - 1] as i64 - 1;
     let counts: Vec<AtomicU64> = (0..ERR_CLASSES.len() + 3).map(|_| AtomicU64::new(0)).collect();
     let known: Mutex<BTreeMap<String, u64>> = Mutex::new(BTreeMap::new());
+    // A failure is stored as a self-contained `directed` replay (the bytes themselves): an index into the sweep
+    // table would silently point at another input once a corpus file is added or removed.
+    let reported = std::sync::atomic::AtomicBool::new(false);
     run_range(ctx, "header_sweep", 0, hi, true, |i| {
+        if reported.load(Ordering::Relaxed) {
+            return Ok(false);
+        }
         sweep_bytes(i as u64, |bytes, lane| {
             let mut sink = Sink { case: None };
-            match check_tfm(ctx, bytes, 0, &mut sink) {
+            // messages are rendered for one value in 251 (a prime: every word value class of every lane is hit)
+            match check_tfm(ctx, bytes, 0, i % 251 == 0, &mut sink) {
                 Ok(o) => {
                     let k = match o.err_idx {
                         Some(k) => k,
@@ -987,13 +1253,24 @@ fn header_sweep(ctx: &Ctx) {
                     *known.lock().unwrap().entry(sig).or_default() += 1;
                     Ok(false)
                 }
-                Err(Verdict::Fail(m)) => Err(format!(
-                    "base {:?} with {} := {}: {}",
-                    t.bases[lane.base].0,
-                    WORD_NAMES.get(lane.word).unwrap_or(&"-"),
-                    if lane.word < 12 && bytes.len() > 2 * lane.word + 1 { i16::from_be_bytes([bytes[2 * lane.word], bytes[2 * lane.word + 1]]) as i64 } else { -1 },
-                    m
-                )),
+                Err(Verdict::Fail(m)) => {
+                    let msg = format!(
+                        "base {:?} with {} := {}: {}",
+                        t.bases[lane.base].0,
+                        WORD_NAMES.get(lane.word).unwrap_or(&"-"),
+                        if lane.word < 12 && bytes.len() > 2 * lane.word + 1 { i16::from_be_bytes([bytes[2 * lane.word], bytes[2 * lane.word + 1]]) as i64 } else { -1 },
+                        m
+                    );
+                    if ctx.is_generate() {
+                        if !reported.swap(true, Ordering::SeqCst) {
+                            ctx.fail_external("directed", &Raw::Tfm(hex(bytes)), &format!("header_sweep: {msg}"));
+                        }
+                        Ok(false)
+                    } else {
+                        // replay of an index stored by an earlier version
+                        Err(msg)
+                    }
+                }
                 Err(_) => Ok(false),
             }
         })
@@ -1214,6 +1491,10 @@ pub struct Rc {
     params: Vec<(u8, u32)>,
     tweak: Option<(u8, u8, i16)>,
     tail: i8,
+    /// (table, delta): one table (kerns, params, extensible recipes, extra header words, one-step lig/kern programs) is
+    /// extended until the file has 32767 + delta words: lf at the largest value a TFM file can have, and just past it.
+    #[serde(default)]
+    pad: Option<(u8, i8)>,
 }
 
 fn fix_from(sel: u8, raw: u32, first: bool) -> i32 {
@@ -1267,6 +1548,23 @@ fn be(b: &mut Vec<u8>, x: i32) {
 }
 
 fn build_rc(r: &Rc) -> Vec<u8> {
+    if let Some((table, delta)) = r.pad {
+        let plain = Rc { pad: None, tail: 0, tweak: None, ..r.clone() };
+        let need = i16::MAX as i64 + delta as i64 - (build_rc(&plain).len() / 4) as i64;
+        let mut padded = Rc { pad: None, ..r.clone() };
+        if need > 0 {
+            let need = need as usize;
+            match table % 5 {
+                0 => padded.kerns.extend((0..need).map(|k| (0u8, k as u32 * 37))),
+                1 => padded.params.extend((0..need).map(|k| (1u8, k as u32 * 41))),
+                2 => padded.ext.extend((0..need).map(|k| [1, 0, 1, 1, k as u8, 0, (k >> 8) as u8, k as u8])),
+                3 if r.lh_cut == 0 => padded.extra_header = padded.extra_header.saturating_add(need as u16),
+                // lig/kern words with the stop bit: programs of one step (a program shared by all characters is printed once per character)
+                _ => padded.lig.extend((0..need).map(|k| [6, k as u8, (k >> 3) as u8, k as u8, 0])),
+            }
+        }
+        return build_rc(&padded);
+    }
     // header
     let mut h: Vec<u8> = vec![];
     h.extend(r.checksum.to_be_bytes());
@@ -1502,12 +1800,12 @@ fn rc_strategy() -> BoxedStrategy<Rc> {
         any::<u8>(),
         sized(fixw.clone(), 6, 300),
         sized(any::<[u8; 8]>(), 4, 300),
-        prop_oneof![3 => prop::collection::vec(fixw.clone(), 0..=8), 1 => prop::collection::vec(fixw.clone(), 13..=13), 1 => prop::collection::vec(fixw.clone(), 22..=22), 1 => prop::collection::vec(fixw, 0..40)],
+        prop_oneof![12 => prop::collection::vec(fixw.clone(), 0..=8), 4 => prop::collection::vec(fixw.clone(), 13..=13), 4 => prop::collection::vec(fixw.clone(), 22..=22), 4 => prop::collection::vec(fixw.clone(), 0..40), 1 => prop::collection::vec(fixw, 250..=300)],
         prop_oneof![3 => Just(None), 1 => (0u8..12, any::<u8>(), any::<i16>()).prop_map(Some)],
-        prop_oneof![6 => Just(0i8), 1 => 1i8..=8, 1 => -5i8..0],
+        (prop_oneof![6 => Just(0i8), 1 => 1i8..=8, 1 => -5i8..0], prop_oneof![399 => Just(None), 1 => (0u8..5, -2i8..=2).prop_map(Some)]),
     );
     (head, body, tail)
-        .prop_map(|((checksum, design, scheme_kind, scheme, family, sbs_face, extra_header, lh_cut), (bc, empty_range_kind, chars, widths, heights, depths, italics), (lig, lig_frame, kerns, ext, params, tweak, tail))| Rc {
+        .prop_map(|((checksum, design, scheme_kind, scheme, family, sbs_face, extra_header, lh_cut), (bc, empty_range_kind, chars, widths, heights, depths, italics), (lig, lig_frame, kerns, ext, params, tweak, (tail, pad)))| Rc {
             checksum,
             design,
             scheme_kind,
@@ -1530,6 +1828,7 @@ fn rc_strategy() -> BoxedStrategy<Rc> {
             params,
             tweak,
             tail,
+            pad,
         })
         .boxed()
 }
@@ -1542,6 +1841,10 @@ fn rc_oracle(ctx: &Ctx, r: &Rc, case: &mut Case) -> Verdict {
     case.class_if(m.words[8] > 255, "rc:nl>255");
     case.class_if(m.words[1] > 255, "rc:lh>255");
     case.class_if(m.d20_zone, "rc:d20_zone");
+    case.class_if(m.words[11] > 254, "rc:np>254");
+    case.class_if(r.pad.is_some(), "rc:padded_to_the_largest_lf");
+    case.class_if(m.words[0] == i16::MAX, "rc:lf=32767");
+    case.class_if(m.words[0] == i16::MAX && m.expect == Expect::Valid, "rc:lf=32767_header_valid");
     let sel = r.checksum as u64;
     tfm_case(ctx, &b, sel, true, case)
 }
@@ -1590,6 +1893,15 @@ pub struct GenPl {
     seven_bit: bool,
     /// `filler` KRN steps, then `labels` one-step programs labelled D 0, D 1, ... (entry points beyond 255 need redirects)
     late_labels: Option<(u16, u16)>,
+    /// (first code, count 250..=256, style): that many consecutive characters, each with a VARCHAR
+    /// (one extensible recipe per character; 256 recipes is the most a TFM file can hold).
+    #[serde(default)]
+    varchars: Option<(u8, u16, u8)>,
+    /// (delta, labels 250..=256, flags): a lig table at PLtoTF's cap, rendered before `lig`: 32510 + delta steps in all, the
+    /// last `labels` of them one-step programs labelled D 0, D 1, ..; flags bit 0: a BOUNDARYCHAR is declared, bit 1: the very
+    /// last step is labelled BOUNDARYCHAR. With 256 labels and both bits the table needs 32510 + 256 + 1 = 32767 words.
+    #[serde(default)]
+    cap_table: Option<(i8, u16, u8)>,
 }
 
 /// Character codes come from a small pool so that labels, ligature characters and CHARACTER entries collide
@@ -1668,12 +1980,28 @@ fn render_gen(g: &GenPl) -> String {
     }
     if let Some(b) = g.boundary {
         s.push_str(&format!("(BOUNDARYCHAR {})\n", pl_char(b, b)));
+    } else if g.cap_table.is_some_and(|c| c.2 & 1 != 0) {
+        s.push_str("(BOUNDARYCHAR D 7)\n");
     }
     let lig = |s: &mut String| {
-        if g.lig.is_empty() && g.big_lig.0 == 0 && g.late_labels.is_none() {
+        if g.lig.is_empty() && g.big_lig.0 == 0 && g.late_labels.is_none() && g.cap_table.is_none() {
             return;
         }
         s.push_str("(LIGTABLE\n");
+        if let Some((delta, labels, flags)) = g.cap_table {
+            let labels = labels.min(256) as i32;
+            let blabel = (flags >> 1 & 1) as i32;
+            let filler = MAX_STEPS + delta as i32 - labels - blabel;
+            for k in 0..filler {
+                s.push_str(&format!("   (KRN D {} R 0.5)\n", k % 256));
+            }
+            for c in 0..labels {
+                s.push_str(&format!("   (LABEL D {}) (KRN D {} R 1.0)\n", c, (c + 1) % 256));
+            }
+            if blabel == 1 {
+                s.push_str("   (LABEL BOUNDARYCHAR) (KRN D 0 R 2.0)\n");
+            }
+        }
         if let Some((filler, labels)) = g.late_labels {
             for k in 0..filler {
                 s.push_str(&format!("   (KRN D {} R 0.5)\n", k % 256));
@@ -1736,6 +2064,22 @@ fn render_gen(g: &GenPl) -> String {
         let next = if k + 1 == len { first as u16 } else { c + 1 };
         s.push_str(&format!("(CHARACTER D {} (CHARWD R 1.0) (NEXTLARGER D {}))\n", c % 256, next % 256));
     }
+    if let Some((first, n, style)) = g.varchars {
+        for k in 0..n {
+            let c = (first as u16 + k) % 256;
+            s.push_str(&format!("(CHARACTER D {c}"));
+            if style & 1 != 0 {
+                s.push_str(&format!(" (CHARWD R {}.{})", k % 16, k));
+            }
+            s.push_str(" (VARCHAR");
+            for (j, name) in ["TOP", "MID", "BOT"].iter().enumerate() {
+                if (style >> (1 + j)) & 1 != 0 && (k + j as u16) % 3 != 0 {
+                    s.push_str(&format!(" ({name} D {})", (c + 1 + j as u16 * 7) % 256));
+                }
+            }
+            s.push_str(&format!(" (REP D {})))\n", if style & 16 != 0 { (c + 128) % 256 } else { c }));
+        }
+    }
     if !g.lig_first {
         lig(&mut s);
     }
@@ -1751,10 +2095,57 @@ fn gen_pl_strategy() -> BoxedStrategy<GenPl> {
     ];
     let ch = (any::<u8>(), [dim.clone(), dim.clone(), dim.clone(), dim], tag).prop_map(|(c, dims, tag)| GChar { code: pool_code(c), dims, tag });
     let many_dims = (any::<u8>(), any::<u8>(), any::<u32>()).prop_map(|(c, sel, raw)| GChar { code: c, dims: [Some((sel, raw)), Some((sel.rotate_left(1), raw.rotate_left(7))), Some((sel.rotate_left(2), raw.rotate_left(13))), Some((sel.rotate_left(3), raw.rotate_left(19)))], tag: GTag::None });
+    // All 256 codes declared (in shuffled order), every character with its own four dimensions: more than 255 distinct
+    // widths (and far more than 15/15/63 heights, depths, italic corrections), so every `compress` runs at its limit and
+    // char_info is written for the full range 0..=255; a few codes are declared twice (PLtoTF keeps the overwritten
+    // dimensions in the tables) and a few carry tags.
+    let all_codes = (
+        Just((0..=255u8).collect::<Vec<u8>>()).prop_shuffle(),
+        prop::collection::vec((any::<u8>(), any::<u32>(), any::<u8>()), 256),
+        prop::collection::vec((any::<u8>(), any::<u8>(), any::<u32>()), 0..40),
+        0u8..4,
+    )
+        .prop_map(|(codes, dims, dups, mode)| {
+            let four = |sel: u8, raw: u32| [Some((sel, raw)), Some((sel.rotate_left(1), raw.rotate_left(7))), Some((sel.rotate_left(2), raw.rotate_left(13))), Some((sel.rotate_left(3), raw.rotate_left(19)))];
+            let mut v: Vec<GChar> = codes
+                .iter()
+                .zip(dims.iter())
+                .map(|(c, (sel, raw, t))| {
+                    // mode 0: everything distinct; 1: widths distinct, the rest from small sets; 2: widths in a narrow band
+                    // (many nearly equal values: the binary search of `compress` decides between adjacent deltas); 3: mixed tags
+                    let mut d = four(*sel, *raw);
+                    // widths: mostly from the selectors that give pairwise different values (so that more than 255 survive)
+                    if matches!(sel % 32, 22..=24 | 26..=28) && t % 4 != 0 {
+                        d[0] = Some((sel & 0x80, *raw));
+                    }
+                    if mode == 1 {
+                        for k in 1..4 {
+                            // twelve small values (selector 0 maps raw to raw - 2^20)
+                            d[k] = Some((0, (raw >> (4 * k)) % 12 * 4096 + (1 << 20)));
+                        }
+                    }
+                    if mode == 2 {
+                        d[0] = Some((0, (1 << 20) + raw % 60000));
+                    }
+                    let tag = match (mode, t % 16) {
+                        (3, 0..=3) => GTag::Next(c.wrapping_add(1)),
+                        (3, 4..=7) => GTag::Var([Some(*c), None, Some(c.wrapping_add(3)), Some(*c)]),
+                        (_, 15) => GTag::Next(c.wrapping_add(t % 5)),
+                        _ => GTag::None,
+                    };
+                    GChar { code: *c, dims: d, tag }
+                })
+                .collect();
+            for (c, sel, raw) in dups {
+                v.push(GChar { code: c, dims: four(sel, raw), tag: GTag::None });
+            }
+            v
+        });
     let chars = prop_oneof![
-        6 => prop::collection::vec(ch.clone(), 0..10),
-        1 => prop::collection::vec(many_dims, 16..200),
-        1 => prop::collection::vec(ch, 10..60),
+        18 => prop::collection::vec(ch.clone(), 0..10),
+        3 => prop::collection::vec(many_dims, 16..200),
+        3 => prop::collection::vec(ch, 10..60),
+        2 => all_codes,
     ];
     let l = prop_oneof![
         3 => any::<u8>().prop_map(|c| GLig::Label(pool_code(c))),
@@ -1775,9 +2166,24 @@ fn gen_pl_strategy() -> BoxedStrategy<GenPl> {
         any::<u8>(),
         prop_oneof![6 => Just((0u8, 0u16)), 1 => (any::<u8>(), 1u16..6), 1 => (any::<u8>(), 200u16..=256)],
         any::<bool>(),
-        (prop::bool::weighted(0.2), prop_oneof![12 => Just(None), 1 => (prop_oneof![0u16..4, 200u16..300], prop_oneof![2 => 100u16..=255, 1 => Just(256u16)]).prop_map(Some)]),
+        (
+            prop::bool::weighted(0.2),
+            prop_oneof![
+                240 => Just(None),
+                20 => (prop_oneof![0u16..4, 200u16..300], prop_oneof![2 => 100u16..=255, 1 => Just(256u16)]).prop_map(Some),
+            ],
+            // the upper end: 32510 steps called for (PLtoTF's cap) give nl = 32767 with 256 redirects and a boundary entry
+            prop_oneof![
+                260 => Just(None),
+                1 => (-3i8..=2, prop_oneof![1 => 250u16..=255, 3 => Just(256u16)], prop_oneof![3 => Just(3u8), 1 => 0u8..4]).prop_map(Some),
+            ],
+            prop_oneof![
+                19 => Just(None),
+                1 => (prop_oneof![Just(0u8), any::<u8>()], prop_oneof![1 => 250u16..=255, 2 => Just(256u16)], any::<u8>()).prop_map(Some),
+            ],
+        ),
     )
-        .prop_map(|(chars, lig, big_lig, boundary, params, header, scheme, design, cycle, lig_first, (seven_bit, late_labels))| GenPl { chars, lig, big_lig, boundary, params, header, scheme, design, cycle, lig_first, seven_bit, late_labels })
+        .prop_map(|(chars, lig, big_lig, boundary, params, header, scheme, design, cycle, lig_first, (seven_bit, late_labels, cap_table, varchars))| GenPl { chars, lig, big_lig, boundary, params, header, scheme, design, cycle, lig_first, seven_bit, late_labels, varchars, cap_table })
         .boxed()
 }
 
@@ -1795,6 +2201,24 @@ pub enum TMut {
     Wrap { at: u32, depth: u16, kind: u8 },
     Junk { at: u32, which: u8 },
     Truncate { at: u32 },
+    /// Sub-token mutation: one of `GLUE` is inserted at a character boundary *inside* (or at an end of) token `at`, so
+    /// non-ASCII, control characters, carriage returns and stray digits/signs sit inside a property name, a number or a `C` value.
+    Glue { at: u32, which: u8, off: u32 },
+}
+
+/// What `TMut::Glue` inserts.
+const GLUE: [&str; 32] = [
+    "é", "\u{1F600}", "\u{0}", "\u{7f}", "\t", "\r", "\r\n", "\r\r\n", "\n", "\u{85}", "\u{2028}", "ı", "ſ", "\u{301}", "٣", "Ⅷ", "\u{FEFF}", "\u{1}", "\u{1b}", "\u{80}", "\u{a0}", "\u{ffff}",
+    "-", ".", "/", ">", "0", "9", "A", "junk", " ", "\r\r",
+];
+
+fn glue_class(which: u8) -> &'static str {
+    match which as usize % GLUE.len() {
+        0 | 1 | 9..=16 | 19..=21 => "glue:non_ascii_inside_token",
+        2 | 3 | 4 | 17 | 18 => "glue:control_char_inside_token",
+        5..=8 | 31 => "glue:cr_or_newline_inside_token",
+        _ => "glue:ascii_inside_token",
+    }
 }
 
 #[derive(Debug, Clone, Serialize, Deserialize)]
@@ -1808,6 +2232,11 @@ pub struct PlCase {
     src: PlSrc,
     muts: Vec<TMut>,
     crlf: bool,
+    /// Separators of the rendered text: 0 as rendered; 1 TAB for every blank; 2 CR CR LF line ends; 3 lone CR line ends;
+    /// 4 a mixture of LF, CR LF, CR CR LF, CR, LF CR line ends and TAB/blank/double blank; 5 a final newline is appended;
+    /// 6 no newline at all (one line).
+    #[serde(default)]
+    sep: u8,
 }
 
 type Toks = Vec<Cow<'static, str>>;
@@ -1993,6 +2422,16 @@ fn apply_tmut(t: &mut Toks, m: &TMut) {
             let p = scale(*at, n + 1);
             t.truncate(p);
         }
+        TMut::Glue { at, which, off } => {
+            if n > 0 {
+                let k = scale(*at, n);
+                let tok = t[k].to_string();
+                let mut bounds: Vec<usize> = tok.char_indices().map(|(i, _)| i).collect();
+                bounds.push(tok.len());
+                let cut = bounds[scale(*off, bounds.len())];
+                t[k] = Cow::Owned(format!("{}{}{}", &tok[..cut], GLUE[*which as usize % GLUE.len()], &tok[cut..]));
+            }
+        }
     }
 }
 
@@ -2010,6 +2449,7 @@ fn tmut_strategy() -> BoxedStrategy<TMut> {
         1 => (any::<u32>(), prop_oneof![3 => 1u16..6, 1 => 100u16..3000], any::<u8>()).prop_map(|(at, depth, kind)| TMut::Wrap { at, depth, kind }),
         2 => (any::<u32>(), any::<u8>()).prop_map(|(at, which)| TMut::Junk { at, which }),
         1 => any::<u32>().prop_map(|at| TMut::Truncate { at }),
+        5 => (any::<u32>(), any::<u8>(), any::<u32>()).prop_map(|(at, which, off)| TMut::Glue { at, which, off }),
     ]
     .boxed()
 }
@@ -2028,6 +2468,7 @@ fn tmut_class(m: &TMut) -> &'static str {
         TMut::Wrap { .. } => "mut:deep_nesting",
         TMut::Junk { .. } => "mut:junk_token",
         TMut::Truncate { .. } => "mut:truncate",
+        TMut::Glue { .. } => "mut:glue_inside_token",
     }
 }
 
@@ -2036,7 +2477,36 @@ fn pl_case_strategy(n_corpus: usize) -> BoxedStrategy<PlCase> {
         1 => (0..n_corpus.max(1) as u16).prop_map(PlSrc::Corpus),
         1 => gen_pl_strategy().prop_map(PlSrc::Gen),
     ];
-    (src, prop::collection::vec(tmut_strategy(), 0..=4), prop::bool::weighted(0.1)).prop_map(|(src, muts, crlf)| PlCase { src, muts, crlf }).boxed()
+    (src, prop::collection::vec(tmut_strategy(), 0..=4), prop::bool::weighted(0.1), prop_oneof![12 => Just(0u8), 6 => 1u8..=6]).prop_map(|(src, muts, crlf, sep)| PlCase { src, muts, crlf, sep }).boxed()
+}
+
+fn apply_sep(s: String, sep: u8) -> String {
+    match sep {
+        1 => s.replace(' ', "\t"),
+        2 => s.replace('\n', "\r\r\n"),
+        3 => s.replace('\n', "\r"),
+        4 => {
+            let mut out = String::with_capacity(s.len() + s.len() / 8);
+            let mut k = 0usize;
+            for c in s.chars() {
+                match c {
+                    '\n' => {
+                        out.push_str(["\n", "\r\n", "\r\r\n", "\r", "\n\r"][k % 5]);
+                        k += 1;
+                    }
+                    ' ' => {
+                        out.push_str([" ", "\t", "  ", " "][k % 4]);
+                        k += 3;
+                    }
+                    c => out.push(c),
+                }
+            }
+            out
+        }
+        5 => s + "\n",
+        6 => s.replace('\n', " "),
+        _ => s,
+    }
 }
 
 fn build_pl(c: &PlCase) -> Option<String> {
@@ -2047,7 +2517,7 @@ fn build_pl(c: &PlCase) -> Option<String> {
     for m in &c.muts {
         apply_tmut(&mut toks, m);
     }
-    let mut s = render_tokens(&toks);
+    let mut s = apply_sep(render_tokens(&toks), c.sep);
     if c.crlf {
         s = s.replace('\n', "\r\n");
     }
@@ -2064,6 +2534,8 @@ fn pl_text_classes(text: &str, case: &mut Case) {
     let mut chars: Vec<u32> = vec![];
     let mut labels: Vec<u32> = vec![];
     let mut steps = 0usize;
+    let mut widths: Vec<&str> = vec![];
+    let mut varchars = 0usize;
     let val = |k: usize| -> Option<u32> {
         let p = toks.get(k + 1)?.to_ascii_uppercase();
         let v = toks.get(k + 2)?;
@@ -2075,6 +2547,8 @@ fn pl_text_classes(text: &str, case: &mut Case) {
             _ => None,
         }
     };
+    // depth at which a COMMENT was opened (its contents are not property list elements)
+    let mut comment: Option<i64> = None;
     for (k, t) in toks.iter().enumerate() {
         match *t {
             "(" => {
@@ -2082,6 +2556,9 @@ fn pl_text_classes(text: &str, case: &mut Case) {
                 max_depth = max_depth.max(depth);
             }
             ")" => {
+                if comment == Some(depth) {
+                    comment = None;
+                }
                 depth -= 1;
                 if depth < 0 {
                     unbalanced_close = true;
@@ -2089,9 +2566,11 @@ fn pl_text_classes(text: &str, case: &mut Case) {
                 }
             }
             _ => {
-                if k > 0 && toks[k - 1] == "(" {
+                if k > 0 && toks[k - 1] == "(" && comment.is_none() {
                     let key = t.to_ascii_uppercase();
-                    if key == "CHARACTER" {
+                    if key == "COMMENT" {
+                        comment = Some(depth);
+                    } else if key == "CHARACTER" {
                         if let Some(c) = val(k) {
                             first_char.get_or_insert(c);
                             chars.push(c);
@@ -2102,6 +2581,12 @@ fn pl_text_classes(text: &str, case: &mut Case) {
                         }
                     } else if key == "KRN" || key.contains("LIG") && key != "LIGTABLE" {
                         steps += 1;
+                    } else if key == "CHARWD" {
+                        if let Some(v) = toks.get(k + 2) {
+                            widths.push(v);
+                        }
+                    } else if key == "VARCHAR" {
+                        varchars += 1;
                     }
                 }
             }
@@ -2115,6 +2600,22 @@ fn pl_text_classes(text: &str, case: &mut Case) {
     case.class_if(labels.iter().any(|l| !chars.contains(l)), "text:label_for_undeclared_char");
     case.class_if(min_char.is_some_and(|m| labels.iter().any(|l| *l < m)), "text:label_below_first_character");
     case.class_if(chars.len() > 200, "text:>200_characters");
+    case.class_if(steps >= 32000, "text:>=32000_lig_kern_steps");
+    case.class_if(steps >= MAX_STEPS as usize, "text:lig_kern_steps_at_or_over_the_cap_32510");
+    case.class_if(varchars >= 250, "text:>=250_varchars");
+    case.class_if(varchars >= 256, "text:>=256_varchars");
+    chars.sort();
+    chars.dedup();
+    case.class_if(chars.len() == 256 && chars[255] == 255, "text:all_256_codes_declared");
+    widths.sort();
+    widths.dedup();
+    case.class_if(widths.len() > 255, "text:>255_different_charwd_values");
+    case.class_if(!text.is_ascii(), "text:non_ascii");
+    case.class_if(text.bytes().any(|b| b < 32 && b != b'\n' && b != b'\r' || b == 127), "text:control_chars");
+    case.class_if(text.contains('\t'), "text:tab");
+    case.class_if(text.contains("\r\r\n"), "text:cr_cr_lf");
+    case.class_if(text.as_bytes().windows(2).any(|w| w[0] == b'\r' && w[1] != b'\n' && w[1] != b'\r') || text.ends_with('\r'), "text:lone_cr");
+    case.class_if(text.ends_with('\n'), "text:ends_with_newline");
 }
 
 fn pl_oracle(ctx: &Ctx, c: &PlCase, case: &mut Case) -> Verdict {
@@ -2129,6 +2630,11 @@ fn pl_oracle(ctx: &Ctx, c: &PlCase, case: &mut Case) -> Verdict {
             case.class_if(g.cycle.1 >= 200, "gen:huge_nextlarger_cycle");
             case.class_if(g.big_lig.0 > 0, "gen:big_ligtable");
             case.class_if(g.late_labels.is_some_and(|l| l.1 == 256), "gen:256_late_labels");
+            case.class_if(g.cap_table.is_some(), "gen:lig_table_at_the_cap");
+            case.class_if(g.cap_table.is_some_and(|c| c.0 <= 0 && c.1 == 256 && c.2 == 3), "gen:lig_table_calling_for_nl=32767");
+            case.class_if(g.varchars.is_some(), "gen:250..256_varchars");
+            case.class_if(g.varchars.is_some_and(|v| v.1 == 256), "gen:256_varchars");
+            case.class_if(g.chars.len() >= 256, "gen:all_codes_with_own_dimensions");
             case.note = Some(snippet(&text, 500));
         }
     }
@@ -2138,24 +2644,150 @@ fn pl_oracle(ctx: &Ctx, c: &PlCase, case: &mut Case) -> Verdict {
         if !case.classes.contains(&cl) {
             case.class(cl);
         }
+        if let TMut::Glue { which, .. } = m {
+            let cl = glue_class(*which);
+            if !case.classes.contains(&cl) {
+                case.class(cl);
+            }
+        }
     }
+    case.class_if(c.sep != 0, ["sep:as_rendered", "sep:tab_for_blank", "sep:cr_cr_lf", "sep:lone_cr", "sep:mixed_line_ends", "sep:final_newline", "sep:one_line"][(c.sep as usize).min(6)]);
     pl_text_classes(&text, case);
     pl_case(ctx, &text, case)
 }
 
+// ------------------------------------------------------------------------------------
+// Sub-check 5: nesting on the stack the binaries have
+//
+// The workers of this harness have 1 GiB stacks, so recursion over the nesting of the input cannot be observed
+// in-process, and a stack overflow is not a panic: it aborts the process. `pltotf` converts on its main thread
+// (8 MiB). Each case is therefore converted in a child process (this executable, replaying the case) on a thread
+// with an 8 MiB stack; the parent only looks at how the child ended.
+
+const FLAG_SMALL_STACK: &str = "flag:deep_nesting_overflows_the_8_MiB_stack";
+const NEST_UNITS: [&str; 6] = ["(", "(A ", "(CHARACTER C A ", "(LIGTABLE ", "(CHARACTER C A (VARCHAR (TOP C A ", "(COMMENT "];
+
+#[derive(Debug, Clone, Serialize, Deserialize)]
+pub struct Nest {
+    /// index into `NEST_UNITS` (unit 4: the unit once, then "(" repeated)
+    unit: u8,
+    depth: u32,
+    /// followed by `depth` closing parentheses
+    close: bool,
+    /// Set in the copy handed to the child process: convert here, on an 8 MiB thread.
+    #[serde(default)]
+    inner: bool,
+}
+
+fn nest_text(n: &Nest) -> String {
+    let u = NEST_UNITS[n.unit as usize % NEST_UNITS.len()];
+    let d = n.depth as usize;
+    let mut s = String::with_capacity(d * (u.len() + 1) + 64);
+    if n.unit as usize % NEST_UNITS.len() == 4 {
+        s.push_str(u);
+        for _ in 0..d {
+            s.push('(');
+        }
+    } else {
+        for _ in 0..d {
+            s.push_str(u);
+        }
+    }
+    if n.close {
+        for _ in 0..d {
+            s.push(')');
+        }
+    }
+    s
+}
+
+fn nest_oracle(ctx: &Ctx, n: &Nest, case: &mut Case) -> Verdict {
+    case.note = Some(format!("{:?} x {}{}", NEST_UNITS[n.unit as usize % NEST_UNITS.len()], n.depth, if n.close { " closed" } else { " unclosed" }));
+    if n.inner {
+        let text = nest_text(n);
+        let h = std::thread::Builder::new().stack_size(8 << 20).spawn(move || {
+            let (bytes, warnings) = tfm::algorithms::pl_to_tfm(&text);
+            // what pltotf prints: the first and the last few warnings are enough here (the text is long)
+            let k = warnings.len();
+            let mut m = 0usize;
+            for w in warnings.iter().take(3).chain(warnings.iter().skip(k.saturating_sub(3).max(3))) {
+                m += w.pltotf_message(&text).len();
+            }
+            (bytes.len(), k, m)
+        });
+        return match h.map(|h| h.join()) {
+            Ok(Ok(_)) => Verdict::pass(true),
+            Ok(Err(_)) => Verdict::Fail("pl_to_tfm (or pltotf_message) panics on an 8 MiB stack".into()),
+            Err(_) => Verdict::Skip("could not start the 8 MiB thread"),
+        };
+    }
+    let Ok(exe) = std::env::current_exe() else { return Verdict::Skip("own executable unknown") };
+    let inner = Nest { inner: true, ..n.clone() };
+    let body = serde_json::json!({"property": ctx.prop, "sub": "small_stack_nesting", "case": inner});
+    let path = std::env::temp_dir().join(format!("c10-nest-{}-{}-{}-{}.json", std::process::id(), n.unit, n.depth, n.close));
+    if std::fs::write(&path, body.to_string()).is_err() {
+        return Verdict::Skip("could not write the child's case file");
+    }
+    let out = std::process::Command::new(exe).arg(ctx.prop).arg("--replay").arg(&path).env("VP_VERIF_DIR", &ctx.verif_dir).stdin(std::process::Stdio::null()).output();
+    let _ = std::fs::remove_file(&path);
+    let Ok(out) = out else { return Verdict::Skip("could not start the child process") };
+    let stderr = String::from_utf8_lossy(&out.stderr);
+    case.class_if(n.depth >= 250_000, "nest:depth>=250000_on_8MiB_stack");
+    match out.status.code() {
+        Some(0) => Verdict::pass(true),
+        Some(1) => Verdict::Fail(format!("converted on an 8 MiB stack in a child process: {}", snippet(&String::from_utf8_lossy(&out.stdout), 600))),
+        _ if stderr.contains("overflowed its stack") => {
+            if ctx.known(FLAG_SMALL_STACK) {
+                Verdict::Known(FLAG_SMALL_STACK.into())
+            } else {
+                Verdict::Fail(format!(
+                    "pl_to_tfm does not return: nesting depth {} overflows an 8 MiB stack (the main thread of pltotf) and the process aborts: {}",
+                    n.depth,
+                    snippet(stderr.trim(), 200)
+                ))
+            }
+        }
+        _ => Verdict::Skip("child process did not finish (infrastructure)"),
+    }
+}
+
+fn nest_cases(ctx: &Ctx) -> Vec<Nest> {
+    let mut v = vec![];
+    for unit in 0..NEST_UNITS.len() as u8 {
+        for close in [false, true] {
+            // PLtoTF keeps one counter for the nesting level; 10^6 levels are a text of 1-2 MB
+            let deep = if unit < 2 { 1_000_000 } else { 300_000 };
+            v.push(Nest { unit, depth: deep, close, inner: false });
+            if ctx.tier == Tier::Thorough {
+                v.push(Nest { unit, depth: 20_000, close, inner: false });
+                v.push(Nest { unit, depth: 150_000, close, inner: false });
+            }
+        }
+    }
+    v
+}
+
 pub fn run(ctx: &Ctx) {
     run_fuzz_raw(ctx, fuzz_entry);
-    ctx.rule("TFM side: a case is one byte string (header sweep: a base file with one of its twelve 16-bit header words set to a value; truncations and byte mutations of corpus fonts; size-consistent random files decoded from generated integers); PL side: one text (token-level mutations of corpus and generated property lists). Non-trivial = the input was rejected with a documented error or produced at least one warning; distinct by content (sweep/truncations: by construction).");
+    ctx.rule("TFM side: a case is one byte string (header sweep: a base file with one of its twelve 16-bit header words set to a value; truncations and byte mutations of corpus fonts; size-consistent random files decoded from generated integers); PL side: one text (token-level and sub-token mutations of corpus and generated property lists, rendered with blank/TAB/LF/CR LF/CR CR LF/CR separators; generated lists include all 256 codes with more than 255 different widths, 250..=256 VARCHAR characters, lig tables at PLtoTF's cap of 32510 steps with 256 late labels). Non-trivial = the input was rejected with a documented error or produced at least one warning; distinct by content (sweep/truncations: by construction).");
     ctx.assume("Outcome of tfm_to_pl is compared with an independent transcription of TFtoPL 2014 sections 20-21; where TFtoPL and the crate's documentation differ (ne = 256; empty character range with ec > 255; lf in 4..=5) every documented non-panicking outcome is accepted.");
     ctx.assume("A listed panic signature excuses a case only inside the input zone derived for it (D19: lf in 4..=5 and lf*4 <= len < 24; D20: all earlier header checks pass and the sizes sum past 32767); other listed signatures are matched by (file, message).");
     ctx.assume("pl_to_tfm output must satisfy 4*lf = len exactly (definition of lf in the TFM format) in addition to being accepted by File::deserialize.");
     ctx.assume("Beyond the literal statement, for accepted TFM files a second validate_and_fix pass must not report again any warning kind whose TFtoPL message states the repair (indices reset, values zeroed, skips stopped, labels removed, NEXTLARGER cycles broken): the mechanism the property names.");
-    ctx.assume("Nesting depth of generated property lists is at most 5000 per mutation (worker stacks are 1 GiB; no stack overflow observed up to 100000 on an 8 MiB stack). Rendering of warnings to text (tftopl_message / pltotf_message) is outside the observed interface.");
+    ctx.assume("Nesting depth of generated property lists is at most 5000 per mutation on the 1 GiB worker stacks; nesting against the stack the pltotf binary has (8 MiB main thread) is checked by the sub-check small_stack_nesting, which converts directed texts of depth up to 10^6 in a child process (a stack overflow aborts the process and cannot be caught in-process); a child that cannot be started or is killed for other reasons is counted as skipped, never as a verdict.");
+    ctx.assume("'Returns ... plus warnings' includes what the two anchored binaries do with every returned warning and error: turning it into its text (pltotf_message(text) / tftopl_message()); a panic there is a violation. When the summed context offsets of a case exceed 4*10^5 characters (thorough: 3*10^6) a deterministic sample of its warnings is rendered (first of every kind, first and last four, evenly spaced others up to that budget); in the header sweep one value in 251.");
+    ctx.assume("'Always returns' is bounded by work, not time: every table of the pl_to_tfm output (lh nw nh nd ni nl nk ne np) is at most as long as the text can call for, counted from the text alone (LIG/KRN/CHARWD/... occurrences, PLtoTF's cap of 32510 steps + 257 entry words). The listed finding flag:pl_output_longer_than_32767_words excuses only outputs whose text calls for more than 32767 words and whose tables are consistent with the length and within these bounds. A conversion that does not terminate shows up as a stuck run (engine level), not as a verdict.");
     if ctx.is_generate() {
         calibrate(ctx);
     }
     let c = corpus();
+    if c.tfm.len() < 90 || c.pl.len() < 90 {
+        // infrastructure, not a verdict: without the corpus most sub-checks would silently have nothing to do
+        eprintln!("C10: corpus {CORPUS_DIR} unreadable or incomplete ({} .tfm, {} .pl/.plst files; expected at least 90 of each)", c.tfm.len(), c.pl.len());
+        std::process::exit(2);
+    }
     run_list(ctx, "directed", directed_cases(), |r: &Raw, case| raw_oracle(ctx, r, case));
+    run_list(ctx, "small_stack_nesting", nest_cases(ctx), |n: &Nest, case| nest_oracle(ctx, n, case));
     header_sweep(ctx);
     truncations(ctx);
     let n = ctx.tier.pick(40_000, 800_000);
